@@ -33,6 +33,36 @@ def scenarios(rng, count):
     z = E.gen_instance(rng, max_meas=2, zeros_prob=1.0, allow_empty=False)
     for s in ("MD", "RDA", "IG"):
         out.append((z, s, 1, None, {}))
+    # chordless cycles of length 5 and 6 (fill-in of fill-in is needed for a valid tree)
+    for n in (5, 6):
+        cyc = E.gen_instance(rng, nattr=5, max_meas=0, zeros_prob=0.0, sizes=[2] * 5) if n == 5 else None
+        if cyc is None:
+            continue
+        a = sorted(cyc["order"])
+        # domain in name order: the default greedy elimination then removes a, b, c, ... in turn, and the third elimination
+        # involves a fill-in edge created by the first
+        x = E.true_marginal(cyc, a).reshape(-1)
+        cyc["order"], cyc["x"] = a, [float(v) for v in x]
+        for i in range(5):
+            pr = [a[i], a[(i + 1) % 5]]
+            y = E.true_marginal(cyc, pr).reshape(-1) + np.array([rng.gauss(0, 1.0) for _ in range(4)])
+            cyc["meas"].append({"proj": pr, "kind": "identity", "noise": 1.0, "y": [float(v) for v in y]})
+        for s in ("MD", "RDA", "IG"):
+            out.append((cyc, s, rng.choice([1, 25]), float(sum(cyc["x"])), {}))
+    # histories on one warm-started engine: a normal call, then a call that takes an early exit with another total
+    for s in ("MD", "RDA", "IG"):
+        # measurements only inside the clique that carries the structural zeros: both calls build the same maximal cliques
+        g = E.gen_instance(rng, max_meas=0, zeros_prob=1.0, sizes=(2, 3, 2))
+        while not g["zeros"]:
+            g = E.gen_instance(rng, max_meas=0, zeros_prob=1.0, sizes=(2, 3, 2))
+        zc = list(next(iter(g["zeros"])).split(","))
+        for pr in (zc, zc[:1]):
+            y = E.true_marginal(g, pr).reshape(-1) + np.array([rng.gauss(0, 1.0) for _ in range(int(np.prod([g["sz"][a] for a in pr])))])
+            g["meas"].append({"proj": pr, "kind": "identity", "noise": 1.0, "y": [float(v) for v in y]})
+        out.append((dict(g, meas=[]), s, 3, 17.0, {}, {"warm": True, "prior": [(g, s, 40.0)]}))
+        h = E.gen_instance(rng, max_meas=3, zeros_prob=1.0, allow_empty=False)
+        out.append((dict(h, meas=[]), s, 3, 17.0, {}, {"warm": True, "prior": [(h, s, 40.0)]}))
+        out.append((h, s, 3, 25.0, {}, {"warm": True, "prior": [(dict(h, meas=[]), s, 9.0), (h, "MD", 60.0)]}))
     return out
 
 
@@ -50,11 +80,15 @@ def run(ctx, canary=False):
         ctx.violation("design-level: %s violated in Solvers.tla" % r.violated, {"tlc": r.trace_text()}, {"kind": "design"})
     traces = []
     paths = {}
-    for inst, solver, iters, total, opts in scenarios(rng, 1500 if thorough else 240):
-        info = {"instance": inst, "solver": solver, "iters": iters, "total": total, "options": opts}
+    for sc in scenarios(rng, 1500 if thorough else 240):
+        inst, solver, iters, total, opts = sc[:5]
+        hist = sc[5] if len(sc) > 5 else None
+        info = {"instance": inst, "solver": solver, "iters": iters, "total": total, "options": opts, "history": hist}
         ctx.case(json.dumps(info, sort_keys=True), nontrivial=len(inst["meas"]) >= 1)
         try:
-            eng = E.make_engine(inst, iters)
+            eng = E.make_engine(inst, iters, warm_start=bool(hist and hist.get("warm")))
+            for (pi, ps, pt) in (hist or {}).get("prior", []):
+                E.run_estimate(eng, E.measurements(pi, "dense"), pt, ps, {})
             meas = E.measurements(inst, rng.choice(["dense", "sparse", "mixed"]))
             model, ev = E.run_estimate(eng, meas, total, solver, opts)
         except Exception as ex:
